@@ -1,5 +1,6 @@
 import SpoxModel.Lemmas.Subgraph
 import SpoxModel.Lemmas.SubgraphNested
+import SpoxModel.Lemmas.SubgraphNames
 import SpoxModel.Model.CallForm
 import SpoxModel.Generated.SubgraphSpecs
 import SpoxModel.Generated.CallbackSites
@@ -506,6 +507,160 @@ theorem if_dead_branch_typeerror {m : String} {s : CtorSpec} (h : (m, "if_", s) 
     · rcases hex with hb | hb
       · exact ⟨("else_branch", .empty), by simp [ifSpec, ifSpecSwapped], hb⟩
       · exact ⟨("then_branch", .empty), by simp [ifSpec, ifSpecSwapped], hb⟩
+
+/-! ## Name glue inside `subgraph`: `enum_arguments` / `enum_results` (round 10)
+
+`subgraph(types, fun)` creates its arguments with `enum_arguments(*types)` and wraps the callback's result with
+`enum_results(*outs)`: both build a Python dict keyed by the generated names `f"{prefix}{i}"`
+(`Model/SubgraphNames.lean`). That `subgraphCall` may log `types` position by position, and count the results
+by the number of returned Vars, is *proved* here from the dict semantics — for every number of arguments /
+results (the names `in10`, `in11`, … included) and every prefix. Tie H: the driver evaluates `enumDict` /
+`sortedByName` and the harness compares names, order and length with the real `enum_arguments` /
+`enum_results` / `subgraph` on generated lists (lengths up to several hundred, several prefixes). -/
+
+open SubgraphNames SubgraphNamesLemmas in
+/-- **`enum_arguments` is positional.** For every prefix and every list of infos (any length): the tuple it
+    returns has one argument per info, in the order given — entry `i` is named `f"{prefix}{i}"`, the names are
+    pairwise different (no dict entry is overwritten). -/
+theorem enum_arguments_positional (pre : String) (infos : List α) :
+    enumArguments pre infos = infos
+      ∧ (enumDict pre infos).map (·.1) = (List.range infos.length).map (pyKey pre)
+      ∧ ((enumDict pre infos).map (·.1)).Nodup := by
+  have hk : (enumDict pre infos).map (·.1) = (List.range infos.length).map (pyKey pre) := by
+    rw [enumDict_eq, named_keys]; simp
+  refine ⟨by rw [enumArguments, enumDict_eq, named_values], hk, ?_⟩
+  rw [hk]
+  exact range_map_nodup (pyKey pre) (pyKey_inj pre) infos.length
+
+open SubgraphNames SubgraphNamesLemmas in
+/-- **`enum_results` is positional and loses nothing.** For every prefix and every list of returned Vars (any
+    length, repeated Vars included): the results dict has exactly as many entries as Vars were returned — what
+    `out_variadic = len(<graph>.requested_results)` counts — and entry `i` is `(f"{prefix}{i}", vars[i])`. -/
+theorem enum_results_positional (pre : String) (vars : List α) :
+    (enumResults pre vars).length = vars.length
+      ∧ (enumResults pre vars).map (·.2) = vars
+      ∧ ∀ i (h : i < vars.length), (enumResults pre vars)[i]? = some (pyKey pre i, vars[i]) := by
+  refine ⟨by rw [enumResults, enumDict_eq, named_length], by rw [enumResults, enumDict_eq, named_values], ?_⟩
+  intro i h
+  rw [enumResults, enumDict_eq, named_getElem? (pyKey pre) vars 0 i h]; simp
+
+open SubgraphNames SubgraphNamesLemmas in
+/-- **`subgraphCall` is what the name-level code computes** (refinement). For every list of types, every
+    world, every callback returning any list `outs` of Vars: the argument ids and types produced by going
+    through the `in{i}` dict are exactly the ones `subgraphCall` logs (fresh ids in order, `types` position by
+    position), the stored graph's `_arguments` are the very ids the callback received, `_constructor` is the
+    callback, and `len(requested_results)` is the `nResults` of `subgraphCall` = the number of returned Vars. -/
+theorem subgraph_names_refine (types : List Ty) (cb : Nat) (outs : List Nat) (w : World) :
+    let t := subgraphTail types w.fresh cb outs
+    subgraphCall types cb (.returnsVars outs.length) w
+        = (.ok ⟨cb, t.1, t.2.2.results.length⟩, ⟨⟨cb, t.1, t.2.1⟩ :: w.events, w.fresh + types.length⟩)
+      ∧ t.2.2.arguments = t.1 ∧ t.2.2.constructor = cb
+      ∧ t.2.2.results.map (·.2) = outs := by
+  have hl : (enumDict "in" types).length = types.length := by rw [enumDict_eq, named_length]
+  have hv : (enumDict "in" types).map (·.2) = types := by rw [enumDict_eq, named_values]
+  have hr := enum_results_positional "out" outs
+  simp only [subgraphTail, hl, hv, hr.1, hr.2.1, subgraphCall, CbBehaviour.callable, CbBehaviour.result, freshIds]
+  simp
+
+open SubgraphNames SubgraphNamesLemmas in
+/-- **Exactly what the name scheme has to satisfy** (the converse of the two statements above). For *any* name
+    function in place of `f"{prefix}{i}"`: the dict comprehension keeps one entry per element for every list —
+    no argument, no result is lost — **iff** the name function is injective; and then it is positional
+    (`enumInto … = named …`). `pyKey pre` is injective for every prefix (`pyKey_inj`: decimal rendering is
+    injective, the common prefix cancels), which is how the two theorems above follow. -/
+theorem names_positional_iff_injective (key : Nat → String) :
+    (∀ xs : List Nat, (enumInto key xs 0 []).length = xs.length) ↔ (∀ a b, key a = key b → a = b) := by
+  constructor
+  · intro h a b hab
+    rcases Nat.lt_trichotomy a b with hlt | heq | hgt
+    · have := enumInto_collision_lt key (List.range (b + 1)) 0 a b [] hlt (by simp) (by simpa using hab)
+      rw [h] at this; simp at this
+    · exact heq
+    · have := enumInto_collision_lt key (List.range (a + 1)) 0 b a [] hgt (by simp) (by simpa using hab.symm)
+      rw [h] at this; simp at this
+  · intro hinj xs
+    rw [enumInto_eq key hinj xs 0 [] (by intro p hp; cases hp)]
+    simp [named_length]
+
+open SubgraphNames SubgraphNamesLemmas in
+/-- **The typed dummy that inference uses has the subgraph's signature** — for every key, every list of argument
+    types and every list of result types (any lengths): as many inputs as `subgraph` created arguments, typed
+    position by position; as many outputs as the callback returned Vars, typed position by position; one
+    `Identity` per output; the names within each family pairwise different. `makeDummy` is a function of these
+    types alone: the stored callback is no input of it (re-tracing is excluded by `no_callback_reachable`; this
+    says what inference gets *instead*). -/
+theorem dummy_subgraph_signature (key : String) (types resTys : List Ty) :
+    let d := dummyOfSubgraph key types resTys
+    d.inputs.map (·.2) = types ∧ d.outputs.map (·.2) = resTys ∧ d.valueInfos.map (·.2) = resTys
+      ∧ d.nodes.length = resTys.length
+      ∧ (∀ i, i < resTys.length → d.nodes[i]? = (d.valueInfos[i]?.bind fun vi => d.outputs[i]?.map fun o => (vi.1, o.1)))
+      ∧ (d.inputs.map (·.1)).Nodup ∧ (d.outputs.map (·.1)).Nodup ∧ (d.valueInfos.map (·.1)).Nodup := by
+  have ha : (enumDict "in" types).map (·.2) = types := by rw [enumDict_eq, named_values]
+  have hr : (enumResults "out" resTys).map (·.2) = resTys := (enum_results_positional "out" resTys).2.1
+  simp only [dummyOfSubgraph, makeDummy, ha, hr, named_values, named_keys, List.length_map, List.length_range,
+    Nat.zero_add, true_and]
+  refine ⟨?_, range_map_nodup _ (pyKey_inj _) _, range_map_nodup _ (pyKey_inj _) _, range_map_nodup _ (pyKey_inj _) _⟩
+  intro i hi
+  rw [named_getElem? _ _ 0 i hi, named_getElem? _ _ 0 i hi]
+  simp [hi]
+
+open SubgraphNames SubgraphNamesLemmas in
+/-- **All value names of the dummy are pairwise different** — inputs, outer value-infos and outputs, within and
+    *across* the three families (`__dummy_input{i}` / `__dummy_outer_output{j}` / `__dummy_output{k}`), for every
+    number of arguments and results: the dummy is a well-formed (single-assignment) graph whatever the sizes. -/
+theorem dummy_names_distinct (key : String) (argTys resTys : List α) :
+    let d := makeDummy key argTys resTys
+    (d.inputs.map (·.1) ++ d.valueInfos.map (·.1) ++ d.outputs.map (·.1)).Nodup := by
+  simp only [makeDummy, named_keys, Nat.zero_add]
+  rw [List.nodup_append, List.nodup_append]
+  refine ⟨⟨range_map_nodup _ (pyKey_inj _) _, range_map_nodup _ (pyKey_inj _) _, ?_⟩,
+    range_map_nodup _ (pyKey_inj _) _, ?_⟩
+  · intro a ha b hb
+    obtain ⟨i, _, rfl⟩ := List.mem_map.1 ha
+    obtain ⟨j, _, rfl⟩ := List.mem_map.1 hb
+    exact in_ne_outer i j
+  · intro a ha b hb
+    obtain ⟨j, _, rfl⟩ := List.mem_map.1 hb
+    rcases List.mem_append.1 ha with ha | ha
+    · obtain ⟨i, _, rfl⟩ := List.mem_map.1 ha
+      exact in_ne_output i j
+    · obtain ⟨i, _, rfl⟩ := List.mem_map.1 ha
+      exact (out_ne_outer j i).symm
+
+/-- Non-vacuity: the dummy of a Loop body with 3 arguments and 2 results. -/
+example :
+    SubgraphNames.dummyOfSubgraph "body" [Ty.tensor 7 (some [.n 1]), .tensor 9 (some [.n 1]), (f32 [2]).ty]
+        [Ty.tensor 9 (some [.n 1]), (f32 [2]).ty]
+      = ⟨"__dummy_body",
+         [("__dummy_input0", .tensor 7 (some [.n 1])), ("__dummy_input1", .tensor 9 (some [.n 1])), ("__dummy_input2", (f32 [2]).ty)],
+         [("__dummy_output0", .tensor 9 (some [.n 1])), ("__dummy_output1", (f32 [2]).ty)],
+         [("__dummy_outer_output0", .tensor 9 (some [.n 1])), ("__dummy_outer_output1", (f32 [2]).ty)],
+         [("__dummy_outer_output0", "__dummy_output0"), ("__dummy_outer_output1", "__dummy_output1")]⟩ := by
+  decide
+
+open SubgraphNames in
+/-- Why the dict order matters (the `enum_arguments`-sorted-by-name change of a held-out round): listing the
+    entries in *name* order is positional up to 10 entries and wrong from the 11th on (`in10 < in2`). -/
+theorem names_sorted_counterexample :
+    (sortedByName (enumDict "in" (List.range 10))).map (·.2) = List.range 10
+      ∧ (sortedByName (enumDict "in" (List.range 12))).map (·.2) = [0, 1, 10, 11, 2, 3, 4, 5, 6, 7, 8, 9] := by
+  decide
+
+open SubgraphNames in
+/-- Why the names must be pairwise different: with a colliding name scheme (`f"{prefix}{i % 10}"`) 12 returned
+    Vars leave a dict of 10 entries — the operator would get 10 outputs, and entries 0 and 1 hold Vars 10, 11. -/
+theorem names_collision_counterexample :
+    (enumInto (fun i => pyKey "out" (i % 10)) (List.range 12) 0 []).map (·.2) = [10, 11, 2, 3, 4, 5, 6, 7, 8, 9] := by
+  decide
+
+/-- Non-vacuity: 12 types through the `in{i}` dict — names, order, stored state. -/
+example :
+    let t := SubgraphNames.subgraphTail (List.range 12) 100 7 [105, 100, 105]
+    t.1 = [100, 101, 102, 103, 104, 105, 106, 107, 108, 109, 110, 111] ∧ t.2.1 = List.range 12
+      ∧ t.2.2 = ⟨[("out0", 105), ("out1", 100), ("out2", 105)], t.1, 7⟩
+      ∧ (SubgraphNames.enumDict "in" (List.range 12)).map (·.1)
+          = ["in0", "in1", "in2", "in3", "in4", "in5", "in6", "in7", "in8", "in9", "in10", "in11"] := by
+  decide
 
 /-! ## Callable forms
 
